@@ -374,7 +374,7 @@ func (in *inliner) helperOf(call *ast.CallExpr, early bool) (*ast.FuncDecl, *typ
 	if !good {
 		return nil, nil
 	}
-	if n := sig.Results().Len(); n > 0 {
+	if n := sig.Results().Len(); n > 0 && !early {
 		if len(body) == 0 {
 			return nil, nil
 		}
@@ -624,6 +624,79 @@ func (in *inliner) stmt(st ast.Stmt) []ast.Stmt {
 				Names: []*ast.Ident{ast.NewIdent(name)}, Type: (&cloner{in: in}).node(ptypes[i]).(ast.Expr), Values: []ast.Expr{arg}}}}})
 		}
 	}
+	// a result that is a local of the callee defined at the top level of its body becomes the very
+	// variable the `:=` statement defines (`xs := f()` with `xs' := ...; sort(xs'); return xs'`): what the
+	// body does to it is then done to the caller's variable by name, not to an alias of it
+	if tok == token.DEFINE {
+		for k, r := range results {
+			rid, isID := ast.Unparen(r).(*ast.Ident)
+			lid, _ := ast.Unparen(lhs[k]).(*ast.Ident)
+			if !isID || lid == nil || lid.Name == "_" || in.info.Defs[lid] == nil || outvar[k] != nil {
+				continue
+			}
+			lo, isVar := in.info.Uses[rid].(*types.Var)
+			if !isVar || k >= sig.Results().Len() || !types.Identical(lo.Type(), sig.Results().At(k).Type()) {
+				continue
+			}
+			if _, taken := rename[lo]; taken || subst[lo] != nil {
+				continue
+			}
+			// defined by a top-level statement of the body
+			topLevel := false
+			for _, st := range body {
+				switch d := st.(type) {
+				case *ast.AssignStmt:
+					if d.Tok == token.DEFINE {
+						for _, l := range d.Lhs {
+							if id, ok := l.(*ast.Ident); ok && in.info.Defs[id] == types.Object(lo) {
+								topLevel = true
+							}
+						}
+					}
+				case *ast.DeclStmt:
+					if gd, ok := d.Decl.(*ast.GenDecl); ok {
+						for _, sp := range gd.Specs {
+							if vs, ok := sp.(*ast.ValueSpec); ok {
+								for _, id := range vs.Names {
+									if in.info.Defs[id] == types.Object(lo) {
+										topLevel = true
+									}
+								}
+							}
+						}
+					}
+				}
+			}
+			// the caller's name must not be in use inside the body or its arguments
+			clash := false
+			for _, st := range body {
+				ast.Inspect(st, func(n ast.Node) bool {
+					if id, ok := n.(*ast.Ident); ok && id.Name == lid.Name && in.info.Uses[id] != types.Object(lo) && in.info.Defs[id] != types.Object(lo) {
+						clash = true
+					}
+					return !clash
+				})
+			}
+			for _, a := range args {
+				ast.Inspect(a, func(n ast.Node) bool {
+					if id, ok := n.(*ast.Ident); ok && id.Name == lid.Name {
+						clash = true
+					}
+					return !clash
+				})
+			}
+			used := false
+			for k2, r2 := range results {
+				if k2 != k && mentionsObj(in.info, r2, lo) {
+					used = true
+				}
+			}
+			if topLevel && !clash && !used {
+				rename[lo] = lid.Name
+				outvar[k] = lo
+			}
+		}
+	}
 	// locals declared in the body get fresh names
 	for _, s := range body {
 		ast.Inspect(s, func(n ast.Node) bool {
@@ -720,7 +793,12 @@ func (in *inliner) stmt(st ast.Stmt) []ast.Stmt {
 		if len(l2) > 0 {
 			t := token.ASSIGN
 			if exact {
-				t = token.DEFINE
+				// `:=` needs a new variable on the left; the new ones may all have been bound already
+				for k := range lhs {
+					if lid, ok := ast.Unparen(lhs[k]).(*ast.Ident); ok && outvar[k] == nil && lid.Name != "_" && in.info.Defs[lid] != nil {
+						t = token.DEFINE
+					}
+				}
 			}
 			out = append(out, &ast.AssignStmt{Lhs: l2, Tok: t, Rhs: r2})
 		}
@@ -939,6 +1017,21 @@ func terminates(list []ast.Stmt) bool {
 	if len(list) == 0 {
 		return false
 	}
+	hasBreak := func(n ast.Node) bool {
+		found := false
+		ast.Inspect(n, func(m ast.Node) bool {
+			switch y := m.(type) {
+			case *ast.BranchStmt:
+				if y.Tok == token.BREAK || y.Tok == token.GOTO || y.Tok == token.FALLTHROUGH {
+					found = true
+				}
+			case *ast.ForStmt, *ast.RangeStmt, *ast.SelectStmt, *ast.FuncLit:
+				return false // a break in there leaves that statement, not ours
+			}
+			return !found
+		})
+		return found
+	}
 	switch x := list[len(list)-1].(type) {
 	case *ast.ReturnStmt:
 		return true
@@ -948,6 +1041,40 @@ func terminates(list []ast.Stmt) bool {
 				return true
 			}
 		}
+	case *ast.BlockStmt:
+		return terminates(x.List)
+	case *ast.IfStmt:
+		if x.Else == nil || !terminates(x.Body.List) {
+			return false
+		}
+		switch e := x.Else.(type) {
+		case *ast.BlockStmt:
+			return terminates(e.List)
+		case *ast.IfStmt:
+			return terminates([]ast.Stmt{e})
+		}
+	case *ast.SwitchStmt, *ast.TypeSwitchStmt:
+		// every clause ends the function and there is a default: control cannot come out below
+		var body *ast.BlockStmt
+		if sw, ok := x.(*ast.SwitchStmt); ok {
+			body = sw.Body
+		} else {
+			body = x.(*ast.TypeSwitchStmt).Body
+		}
+		if hasBreak(body) {
+			return false
+		}
+		hasDefault := false
+		for _, cc := range body.List {
+			cl := cc.(*ast.CaseClause)
+			if cl.List == nil {
+				hasDefault = true
+			}
+			if !terminates(cl.Body) {
+				return false
+			}
+		}
+		return hasDefault
 	}
 	return false
 }
